@@ -55,7 +55,9 @@ RULE = ("seeded random graph functions as data (vf/gen_graph.py, profile c01): "
         "Mix, + chains of length 3-6 in random association, a*b+c, a+(-b), "
         "a-(-b), neutral/absorbing constants, the same object used twice by "
         "one operator, unreferenced pure and side-effecting units, 1-4 output "
-        "units; <= 60 units, depth <= 7.  A program is non-trivial when at "
+        "units, madd/Sum3/Sum4/operators expanded over channel lists whose "
+        "channels run at different rates (each channel to a sink of its own "
+        "rate); <= 60 units, depth <= 7.  A program is non-trivial when at "
         "least one optimiser rewrite, constructor shortcut or dead-code removal "
         "fired while it was compiled; distinct = hash of the program data")
 ASSUMPTIONS = [
@@ -75,7 +77,7 @@ MIN_COUNTERS = {
     'fired_replace_MulAdd': 20, 'fired_replace_addneg_to_sub': 5,
     'fired_replace_subneg_to_add': 3, 'fired_dead_code_removed': 100,
     'fired_shortcut_BinaryOpUGen': 50, 'fired_shortcut_MulAdd': 10,
-    'operator_units_opcode_checked': 300,
+    'operator_units_opcode_checked': 300, 'feature_mixed-rate-channels': 500,
 }
 
 
